@@ -46,12 +46,8 @@ pub fn c16_oracle(h: &History) -> Result<(), Violation> {
         for (i, op) in ops.iter().enumerate() {
             let rec = h.ops.iter().find(|o| o.thread == t && o.op_idx == i && matches!(o.res, Res::Panicked(_)));
             match (expects_zero_size_panic(op), rec) {
-                (true, Some(r)) => {
-                    if let Res::Panicked(m) = &r.res {
-                        if !m.contains("positive") {
-                            return bad("panic", format!("{} panicked with '{}' instead of the documented chunk-size panic", op, m));
-                        }
-                    }
+                (true, Some(_)) => {
+                    // the documented panic (its wording is not part of the property)
                 }
                 (true, None) => {
                     // only if the thread got that far
